@@ -16,6 +16,7 @@ Same line protocol as the Lean driver m_c19 (lean/Drivers/C19.lean): one request
                                 (structurally equal) objects
   size hiindex loindex hibound lobound unique
   fits K lo hi K' lo' hi'       may a `K [lo:hi] OF REAL` object be stored where `K' [lo':hi'] OF REAL` is the declared element type?
+  accepts t base                is a value of the simple type t stored by a `LIST [0:?] OF base`?
   bi F | biv F t v              the built-in function F of Builtin.py (SIZEOF HIINDEX LOINDEX HIBOUND LOBOUND VALUE_UNIQUE)
                                 applied to the current container | to a simple value
 replies
@@ -184,6 +185,17 @@ def handle(agg, w):
             return None, refused(e)
         agg._verif_declared = (base, None if byname else bt)
         return agg, "ok"
+    if op == "accepts" and len(w) == 3:
+        try:
+            probe = A.LIST(0, None, mk_type(w[2]))
+            value = mk_val(w[1], 1)
+        except Exception as e:
+            return agg, "bad-op"
+        try:
+            probe[1] = value
+            return agg, "ok"
+        except Exception as e:
+            return agg, refused(e)
     if op == "fits" and len(w) == 7:
         kinds = {"ARRAY": A.ARRAY, "LIST": A.LIST, "BAG": A.BAG, "SET": A.SET}
         hi = lambda x: None if x == "?" else int(x)
